@@ -32,6 +32,19 @@ theorem register_order (c : Client) (l : Line) (hme : c.cfg.meNil = false)
     exec_pass _ _ _ h1, exec_nick _ _ _ h2, exec_user _ _ _ _ h3 h4]
   cases c.cfg.capNeg <;> by_cases hp : c.cfg.pass = [] <;> simp [hp]
 
+/-- **"NICK with its current nick", across a reconnect**: a client (no state tracking) whose nick was refused during
+registration goes by the generator's next nick from then on, and that - not the nick it was configured with - is what the
+next REGISTER (the next connection) asks for; everything else of the registration is as configured -/
+theorem register_after_collision (c : Client) (l lr : Line) (hst : c.st = none) (hme : c.cfg.meNil = false)
+    (h : l.args[1]? = some c.cfg.meNick)
+    (h1 : clean c.cfg.pass) (h2 : clean (c.newNick c.cfg.meNick)) (h3 : clean c.cfg.meIdent) (h4 : clean c.cfg.meName) :
+    (h_REGISTER (h_433 c l).c lr).out =
+      expected c.cfg.capNeg c.cfg.pass (c.newNick c.cfg.meNick) c.cfg.meIdent c.cfg.meName := by
+  have hc : (h_433 c l).c = { c with cfg := { c.cfg with meNick := c.newNick c.cfg.meNick } } := by
+    simp [h_433, refreshMe, hst, hme, arg, h]
+  rw [hc]
+  exact (register_order _ lr (by simpa using hme) (by simpa using h1) (by simpa using h2) (by simpa using h3) (by simpa using h4)).1
+
 /-- the model's `hasPort` (Go int comparison with -1) is the Spec's "has an explicit port" -/
 theorem hasPort_iff (s : Bytes) : hasPort s = hasExplicitPort s := by
   cases h58 : lastIndexByte s 58 <;> cases h93 : lastIndexByte s 93 <;>
